@@ -309,6 +309,37 @@ class ScriptGen:
             inst[v.name] = self.g.closed(T, self.r.choice([0, 1]))
         self.record('substitution', inst, [th], False)
 
+    def do_subst_svar_hyp_only(self):
+        """The instantiated schematic variable occurs in a hypothesis only, while the proposition mentions its
+        schematic type variable through ordinary variables: the type instantiation found while instantiating
+        the hypothesis must reach the proposition (and every other hypothesis) as well."""
+        sa = STVar(self.r.choice(['a', 'b']))
+        y, u, v = Var('y', sa), Var('u', sa), Var('v', sa)
+        z = SVar('z', sa)
+        A = Forall(y, Eq(y, z))
+        th = self.record('assume', A, [], False)
+        if th is None:
+            return
+        tu = self.record('forall_elim', u, [th], False)
+        tv = self.record('forall_elim', v, [th], False)
+        if tu is None or tv is None:
+            return
+        tvs = self.record('symmetric', None, [tv], False)
+        if tvs is None:
+            return
+        th = self.record('transitive', None, [tu, tvs], False)        # A |- u = v
+        for x in (v, u):
+            if th is not None:
+                th = self.record('forall_intr', x, [th], False)
+        if th is None:
+            return
+        T = self.g.rand_type(fun_ok=False)
+        inst = Inst()
+        inst['z'] = self.g.closed(T, self.r.choice([0, 1]))
+        th = self.record('substitution', inst, [th], False)
+        if th is not None and self.r.random() < 0.7:
+            self.record('subst_type', TyInst(**{sa.name: TVar('c')}), [th], False)
+
     def do_subst_capture(self):
         """Replacement that is open only in an argument position (get_type does not look there)
         for a variable that occurs under binders in hypothesis and conclusion."""
@@ -338,6 +369,8 @@ class ScriptGen:
     def do_substitution(self, near):
         if not near and self.r.random() < 0.25:
             return self.do_subst_shared_tyvar()
+        if not near and self.r.random() < 0.2:
+            return self.do_subst_svar_hyp_only()
         if near and self.r.random() < 0.2:
             return self.do_subst_capture()
         th = self.pick(lambda t: any(h.get_svars() for h in list(t.hyps) + [t.prop])) if self.r.random() < 0.8 else self.pick()
